@@ -176,6 +176,9 @@ def check(ctx):
     # concurrently break the protocol although each of them follows it (shared with C20)
     from .common import share
     share(ctx, 'C20', 'R2/C20.', ['R4.rank_dependent_effect'])
+    # the file that is renamed into place is a complete checkpoint only if the reader takes it back: separators and
+    # the order of the items agree between serialize() and the stream constructors (shared with C05)
+    share(ctx, 'C05', 'R4/C05.', ['ii.', 'i.sequence', 'i.loop_counts', 'iv.'])
     # no other member function of the callback (constructor, setters) may open the final file for
     # writing: a probe like `std::ofstream(filename_)` truncates the checkpoint of the previous job
     nother = 0
